@@ -69,12 +69,13 @@ package tree
 //   A2  j <= i  ==>  tabs(store(a,i,t), j) == tabs(a,j)
 //   AX  (forall i in [0,j): a[i] == b[i])  ==>  tabs(a,j) == tabs(b,j)
 
-//@ smt[tabs] (assert (forall ((a (Array Int DT_token)) (k Int) (t DT_token)) (! (=> (>= k 0) (= (tabs (store a k t) (+ k 1)) (snoc (tabs a k) t))) :pattern ((tabs (store a k t) (+ k 1))))))
-//@ smt[tabs] (assert (forall ((a (Array Int DT_token)) (i Int) (j Int) (t DT_token)) (! (=> (<= j i) (= (tabs (store a i t) j) (tabs a j))) :pattern ((tabs (store a i t) j)))))
-//@ smt[tabs] (declare-fun tabsDiff ((Array Int DT_token) (Array Int DT_token) Int) Int)
-//@ smt[tabs] (assert (forall ((a (Array Int DT_token)) (b (Array Int DT_token)) (j Int)) (! (or (= (tabs a j) (tabs b j)) (and (<= 0 (tabsDiff a b j)) (< (tabsDiff a b j) j) (not (= (select a (tabsDiff a b j)) (select b (tabsDiff a b j)))))) :pattern ((tabs a j) (tabs b j)))))
+//@ smt[tabs!] (assert (forall ((a (Array Int DT_token)) (k Int) (t DT_token)) (! (=> (>= k 0) (= (tabs (store a k t) (+ k 1)) (snoc (tabs a k) t))) :pattern ((tabs (store a k t) (+ k 1))))))
+//@ smt[tabs!] (assert (forall ((a (Array Int DT_token)) (i Int) (j Int) (t DT_token)) (! (=> (<= j i) (= (tabs (store a i t) j) (tabs a j))) :pattern ((tabs (store a i t) j)))))
+//@ smt[tabs!] (declare-fun tabsDiff ((Array Int DT_token) (Array Int DT_token) Int) Int)
+//@ smt[tabs!] (assert (forall ((a (Array Int DT_token)) (b (Array Int DT_token)) (j Int)) (! (or (= (tabs a j) (tabs b j)) (and (<= 0 (tabsDiff a b j)) (< (tabsDiff a b j) j) (not (= (select a (tabsDiff a b j)) (select b (tabsDiff a b j)))))) :pattern ((tabs a j) (tabs b j)))))
 
 //@ func tokens.Add
+//@   uses tabs
 //@   requires soff(t.tree) == 0 && 0 <= index && index <= len(t.tree)
 //@   ensures  soff(t.tree) == 0 && len(t.tree) >= index + 1 && len(t.tree) >= old(len(t.tree))
 //@   ensures  tabs(elems(t.tree), index + 1) == snoc(old(tabs(elems(t.tree), index)), mk(token, rule, begin, end))
@@ -120,3 +121,41 @@ package tree
 //@   loop 1 invariant forall(j, imp(entry(posIdx) - 1 <= j && j < posIdx, positions[j] == i))
 //@   loop 1 invariant mapHas(translations, i) && translations == entry(translations)
 //@   loop 1 invariant forall(k, mapHas(translations, k) == entry(mapHas(translations, k))) && forall(k, mapGet(translations, k) == entry(mapGet(translations, k)))
+
+// ---------------------------------------------------------------------------------------------
+// Reset, Parse, Error
+
+//@ closure Init.reset
+//@   requires p != nil
+//@   ensures[C12] position == 0 && tokenIndex == 0 && maxToken == mk(token, 0, 0, 0)
+//@   ensures[C12] memoization != nil && forall(k + memoKey, !mapHas(memoization, k))
+//@   ensures[C12] soff(p.buffer) == 0 && len(p.buffer) == rlen(p.Buffer) + 1 && buffer == p.buffer
+//@   ensures[C12,C13] forall(i, imp(0 <= i && i < rlen(p.Buffer), p.buffer[i] == runeAt(p.Buffer, i)))
+//@   ensures[C12,C13] p.buffer[rlen(p.Buffer)] == 1114112
+//@   modifies var position, tokenIndex, maxToken, memoization, buffer
+//@   modifies $T.buffer at r where r == p
+//@   modifies Elems.Int, MapDom.DT_memoKey!DT_memo, MapVal.DT_memoKey!DT_memo at b where false
+
+//@ closure Init.parse
+//@   requires RT() && position == 0 && tokenIndex == 0 && maxToken == mk(token, 0, 0, 0)
+//@   requires soff(rule) == 0 && imp(len(rule) > 0, 0 < rule[0] && rule[0] < len(p.rules))
+//@   let r = ite(len(rule) > 0, rule[0], 1)
+//@   ensures[C01] (result == nil) == OK(r, 0)
+//@   ensures[C03] imp(result == nil, soff(p.tokens.tree) == 0 && tabs(elems(p.tokens.tree), len(p.tokens.tree)) == APP(r, 0, old(tabs(elems(tree.tree), 0))))
+//@   ensures[C11] imp(result != nil, as(result, parseError).maxToken == MX(r, 0, mk(token, 0, 0, 0)) && as(result, parseError).p == p && fresh(result))
+//@   ensures[C11] imp(result != nil, as(result, parseError).maxToken.begin <= as(result, parseError).maxToken.end && as(result, parseError).maxToken.end <= n)
+//@   modifies var position, tokenIndex, tree, maxToken
+//@   modifies Elems.DT_token at b where true
+//@   modifies MapDom.DT_memoKey!DT_memo, MapVal.DT_memoKey!DT_memo at b where true
+//@   modifies $T.tokens at r where r == p
+//@   modifies parseError.p, parseError.maxToken at r where false
+
+//@ func parseError.Error
+//@   requires e != nil && e.p != nil && soff(e.p.buffer) == 0
+//@   requires e.maxToken.begin <= e.maxToken.end && e.maxToken.end < len(e.p.buffer) && e.maxToken.pegRule < len(rul3s)
+//@   modifies Elems.Int, Elems.DT_token, MapDom.Int!DT_textPosition, MapVal.Int!DT_textPosition at b where false
+//@   loop 0 invariant p == 2*idx() && 0 <= idx() && idx() <= len(tokenSlice) && len(tokenSlice) == 1 && len(positions) == 2 && soff(positions) == 0 && soff(tokenSlice) == 0
+//@   loop 0 invariant fresh(sbase(positions)) && fresh(sbase(tokenSlice)) && sbase(positions) != sbase(tokenSlice) && tokenSlice[0] == e.maxToken
+//@   loop 0 invariant forall(j, imp(0 <= j && j < 2, 0 <= positions[j] && positions[j] < len(e.p.buffer)))
+//@   loop 0 invariant frameExcept("Elems.Int", sbase(positions))
+//@   loop 1 invariant idx() >= 0 && len(tokenSlice) == 1 && soff(tokenSlice) == 0 && tokenSlice[0] == e.maxToken
